@@ -24,6 +24,11 @@ func init() {
 	families["session"] = famSession
 }
 
+// currentEndpoints is an api.RemoteEndpoints whose set of engines is asked for every time.
+type currentEndpoints func() []api.RemoteEngine
+
+func (c currentEndpoints) Engines() []api.RemoteEngine { return c() }
+
 type histOp struct {
 	Op   string
 	Q    int
@@ -105,32 +110,36 @@ func famSession(sc *scn.Scenario, em func(vt.Ev)) {
 	}
 	series := run.SeriesOf(sc, sc.Data)
 	store := vstore.New(series)
-	// cfg.engine = "dist": the engine is a distributed engine over two local engines whose storages hold
-	// the series of even / odd index of the growing storage - long-lived ones for the long-lived engine
+	// cfg.engine = "dist": the engine is a distributed engine over local engines whose storages hold the series
+	// of the growing storage round robin - long-lived ones for the long-lived engine. The set of remote engines is
+	// what the endpoints report when a query is created: two engines at first, one more (up to four) with every
+	// series that is appended - the series are then spread over the engines there are
 	dist := sc.CfgStr("engine", "plain") == "dist"
-	split := func(parts [2]*vstore.Store) {
-		for e := 0; e < 2; e++ {
+	const maxEngines = 4
+	nEngines := 2
+	split := func(parts [maxEngines]*vstore.Store) {
+		for e := 0; e < maxEngines; e++ {
 			var p []vstore.Series
 			for j, s := range store.Series {
-				if j%2 == e {
+				if e < nEngines && j%nEngines == e {
 					p = append(p, s)
 				}
 			}
 			parts[e].Series = p
 		}
 	}
-	newEngine := func() (run.QueryEngine, [2]*vstore.Store) {
-		var parts [2]*vstore.Store
+	newEngine := func() (run.QueryEngine, [maxEngines]*vstore.Store) {
+		var parts [maxEngines]*vstore.Store
 		if !dist {
 			return engine.New(run.EngineOpts(sc, "default", false, nil)), parts
 		}
 		var remotes []api.RemoteEngine
-		for e := 0; e < 2; e++ {
+		for e := 0; e < maxEngines; e++ {
 			parts[e] = vstore.New(nil)
 			remotes = append(remotes, engine.NewLocalEngine(run.EngineOpts(sc, "default", false, nil), parts[e]))
 		}
 		split(parts)
-		return engine.NewDistributedEngine(run.EngineOpts(sc, "default", false, nil), api.NewStaticEndpoints(remotes)), parts
+		return engine.NewDistributedEngine(run.EngineOpts(sc, "default", false, nil), currentEndpoints(func() []api.RemoteEngine { return remotes[:nEngines] })), parts
 	}
 	eng, parts := newEngine()
 	syncParts := func() {
@@ -170,6 +179,9 @@ func famSession(sc *scn.Scenario, em func(vt.Ev)) {
 				ns = append(ns, vstore.Series{L: labels.FromStrings("__name__", "m", "a", "x", "b", fmt.Sprintf("new%d", nextTick)), T: []int64{sc.Ms(nextTick - 2), sc.Ms(nextTick)}, V: []float64{float64(1000 + nextTick*7), float64(1003 + nextTick*7)}})
 			case "gap":
 				nextTick += 4
+			}
+			if dist && op.Kind == "series" && nEngines < maxEngines {
+				nEngines++
 			}
 			nextTick++
 			store.Series = ns
